@@ -324,10 +324,11 @@ func c04HonestUDP(u *c04Unit) []string {
 
 // c04ObservedUDP decides from the captured wire what the receiver did with the mutated datagram
 // (sequence number seq). Genuine retransmissions of seq were held back for c04ObserveWindow, so:
-//   accepted — it emitted a cumulative ack above seq before any genuine copy of seq reached it
-//   rejected — the first genuine copy reached it at least 250 ms after the mutated one and until then
-//              it never acknowledged seq
-//   unknown  — anything else
+//
+//	accepted — it emitted a cumulative ack above seq before any genuine copy of seq reached it
+//	rejected — the first genuine copy reached it at least 250 ms after the mutated one and until then
+//	           it never acknowledged seq
+//	unknown  — anything else
 func c04ObservedUDP(k c04Case, o *c04Outcome, mutated []byte, seq uint32, sid uint32) string {
 	w := o.world
 	w.Net.Lock()
@@ -352,7 +353,10 @@ func c04ObservedUDP(k c04Case, o *c04Outcome, mutated []byte, seq uint32, sid ui
 		if err != nil || seg.SessionID != sid || !seg.IsData() {
 			continue
 		}
-		if seg.Seq == seq && genuineAt < 0 && mutAt >= 0 {
+		if seg.Seq == seq && mutAt < 0 {
+			return "unknown" // the receiver already had this sequence number
+		}
+		if seg.Seq == seq && genuineAt < 0 {
 			genuineAt, genuineT = e.DatagramsSoFar, e.At
 		}
 	}
@@ -390,7 +394,11 @@ func c04CompareUDP(c *core.Ctx, k c04Case, o *c04Outcome) {
 	}
 	ent := c04HonestUDP(u)
 	c.Compared()
-	reply := c.Model.Ask("c04-udp %s %s %s", core.Hex(u.Raw[:24]), core.Hex(mutated), strings.Join(ent, " "))
+	seen := mutated
+	if len(seen) > 1500 {
+		seen = seen[:1500] // readOneSegment reads into a 1500-byte buffer: the socket truncates
+	}
+	reply := c.Model.Ask("c04-udp %s %s %s", core.Hex(u.Raw[:24]), core.Hex(seen), strings.Join(ent, " "))
 	f := strings.Fields(reply)
 	if len(f) < 2 || f[0] != "ok" {
 		c.Disagree("C04/corr/udp-model-error", "model reply: "+reply, k)
@@ -415,9 +423,11 @@ func c04CompareUDP(c *core.Ctx, k c04Case, o *c04Outcome) {
 
 // c04RunSpecial: the client writes a first chunk, learns (as the harness, from the wire) the session
 // id and the next sequence number, then writes a 32-byte chunk:
-//   swap32: 32 bytes that parse as data metadata (own session id, next seq, payloadLen 32); the
-//           network re-orders the two ciphertexts of that datagram: [nonce ‖ ct(payload) ‖ ct(meta)]
-//   copy32: any 32 bytes; the network overwrites the payload ciphertext with the metadata ciphertext
+//
+//	swap32: 32 bytes that parse as data metadata (own session id, next seq, payloadLen 32); the
+//	        network re-orders the two ciphertexts of that datagram: [nonce ‖ ct(payload) ‖ ct(meta)]
+//	copy32: any 32 bytes; the network overwrites the payload ciphertext with the metadata ciphertext
+//
 // then a third chunk. The server application must read the three chunks as written.
 func c04RunSpecial(c *core.Ctx, k c04Case) {
 	key, _ := json.Marshal(k)
